@@ -457,7 +457,7 @@ def check_distinct_order(pname, gname, vars_, keys, limit):
 AGGS = [("COUNT*", False, None), ("COUNT", False, "v"), ("COUNT", True, "v"), ("COUNT", False, "w"), ("SUM", False, "v"), ("SUM", True, "v"),
         ("AVG", False, "v"), ("AVG", True, "v"), ("MIN", False, "v"), ("MAX", False, "v"), ("SAMPLE", False, "v"), ("SAMPLE", False, "w"),
         ("GROUP_CONCAT", False, "w"), ("GROUP_CONCAT", True, "w"), ("GROUP_CONCAT;", False, "w")]
-GROUPINGS = ["implicit", "s", "s v"]
+GROUPINGS = ["implicit", "s", "s v", "STR(?v)", "s STR(?w)", "isIRI(?v)"]  # the last three: grouping keys that are un-aliased function calls
 
 
 def agg_text(name, distinct, var):
@@ -475,26 +475,41 @@ def check_aggregate(pname, gname, grouping, agg, wrap, having):
     pvars = S.scope(PATTERNS[pname])
     if var is not None and var not in pvars:
         return "skip"
-    gvars = [] if grouping == "implicit" else grouping.split()
-    if any(v not in pvars for v in gvars):
+    gkeys = [] if grouping == "implicit" else grouping.split()          # each key: a variable name or FUNC(?var)
+    gvars = [k for k in gkeys if "(" not in k]                          # only variable keys can be projected
+    if any((k if "(" not in k else k[k.index("?") + 1:-1]) not in pvars for k in gkeys):
         return "skip"
+
+    def key_of(m, k):
+        if "(" not in k:
+            return m.get(k)
+        fn, v = k[:k.index("(")], m.get(k[k.index("?") + 1:-1])
+        if v is None:
+            return None                                                # error -> the key is unbound for this solution
+        if fn == "STR":
+            return ("L", v[1], None, None)
+        if fn == "isIRI":
+            return ("L", "true" if v[0] == "I" else "false", str(XSD.boolean), None)
+        raise ValueError(fn)
+
     at = agg_text(name, distinct, var)
     sel = "(%s AS ?a)" % at if not wrap else "(%s + 1 AS ?a)" % at
     hv = "" if not having else " HAVING (%s > 1)" % at
     q = "SELECT %s %s WHERE { %s }%s%s" % (" ".join("?" + v for v in gvars), sel, where,
-                                            (" GROUP BY " + " ".join("?" + v for v in gvars)) if gvars else "", hv)
+                                            (" GROUP BY " + " ".join(("?" + k if "(" not in k else k) for k in gkeys)) if gkeys else "", hv)
     # reference groups
     groups = {}
     order = []
     for m in sol:
-        k = tuple(m.get(v) for v in gvars)
+        k = tuple(key_of(m, kk) for kk in gkeys)
         if k not in groups:
             groups[k] = []
             order.append(k)
         groups[k].append(m)
-    if not gvars and not groups:
+    if not gkeys and not groups:
         groups[()] = []
         order.append(())
+    proj = [i for i, kk in enumerate(gkeys) if "(" not in kk]
     want = []
     base_name = "GROUP_CONCAT" if name.startswith("GROUP_CONCAT") else name
     sep = "|" if name == "GROUP_CONCAT;" else " "
@@ -523,22 +538,24 @@ def check_aggregate(pname, gname, grouping, agg, wrap, having):
                 n = numval(a)
                 aw = None if n is None else mk_num(n[0], n[1] + 1)
             a = aw
-        want.append((k, a))
+        want.append((tuple(k[i] for i in proj), a))
     try:
         vs, got = run_query(graph_for(gname), q)
     except Exception as e:  # noqa: BLE001
         return ("aggregate|%s|raises|%s" % (base_name, type(e).__name__), {"query": q, "exc": repr(e)[:300]})
-    cls = "%s%s|%s|%s" % (base_name, "-distinct" if distinct else "", "implicit-group" if not gvars else "group-by",
+    cls = "%s%s|%s|%s" % (base_name, "-distinct" if distinct else "", "implicit-group" if not gkeys else "group-by" if len(gvars) == len(gkeys) else "group-by-expression",
                           "empty-input" if not sol else "nonempty")
     if vs != gvars + ["a"]:
         return ("aggregate|%s|vars-differ" % cls, {"query": q, "got": vs})
     rest = list(got)
-    if gvars and not sol and len(got) == 1 and all(x is None for x in got[0]):
+    if gkeys and not sol and len(got) == 1 and all(x is None for x in got[0]):
         # explicit GROUP BY over no solutions: the algebra yields no group, the W3C test agg-empty-group expects one
         # solution without bindings; both are accepted
         return None
     if len(rest) != len(want):
         return ("aggregate|%s|number-of-groups-differs" % cls, {"query": q, "got": list(map(repr, got)), "expected": list(map(repr, want))})
+    # expectations that pin a value are matched before those that accept any value (the matching is greedy)
+    want.sort(key=lambda ka: 1 if (ka[1] == "ANY" or (isinstance(ka[1], tuple) and ka[1] and ka[1][0] in ("ONEOF", "TOKENS"))) else 0)
     for k, a in want:
         for i, r in enumerate(rest):
             if row_equal(tuple(r[:len(gvars)]), k) and agg_matches(a, r[len(gvars)]):
